@@ -75,6 +75,9 @@ func runC15(c *Ctx) {
 		if (base/perSession)%8 == 2 {
 			nFg, nBg = 1, 1 // lone handlers: one per set
 		}
+		if (base/perSession)%8 == 5 {
+			nFg, nBg = 9+r0.Intn(8), 9+r0.Intn(8) // crowded sets: more handlers than any pool of workers would have
+		}
 		total := nFg + nBg
 		// the recovery function is one more party that is handed a line: in every other session it edits the line it
 		// is given (as one that redacts before logging would), and a foreground victim panics on every third event
@@ -106,6 +109,7 @@ func runC15(c *Ctx) {
 		}
 
 		var mu sync.Mutex
+		escapeAfter := int64(2 * time.Second)
 		var expect *client.Line
 		var invs []*c15Inv
 		var arrived int
@@ -163,7 +167,7 @@ func runC15(c *Ctx) {
 				mu.Unlock()
 				// poll with Sleep (never a timer-select: a goroutine parked in select
 				// counts as permanently blocked for the dead-state oracle)
-				for dl := time.Now().Add(2 * time.Second); ; {
+				for dl := time.Now().Add(time.Duration(atomic.LoadInt64(&escapeAfter))); ; {
 					select {
 					case <-b:
 					default:
@@ -174,6 +178,9 @@ func runC15(c *Ctx) {
 						mu.Lock()
 						escaped = true
 						mu.Unlock()
+						// (a dispatcher that does not run all invocations of an event side by side makes every barrier
+						// wait in vain: do not spend 2 s on each of the session's remaining events)
+						atomic.StoreInt64(&escapeAfter, int64(30*time.Millisecond))
 					}
 					break
 				}
